@@ -103,10 +103,32 @@ func vpH_C04_build() {
 	for _, t := range ts {
 		state.Graph.AddTarget(t)
 	}
-	// plz.Run: the initial scan counts as one pending task
+	// plz.Run: the initial scan counts as one pending task. Up to `calls` requests
+	// arrive while it is open: the first for the top target, a later one for any
+	// target; each is an ordinary request or a forced one (needed for a
+	// subinclude), and the state may be one that does not build at all (plz query)
+	// so that a target is first only registered and later forced.
 	state.progress.numPending = 1
-	if err := state.queueTarget(ts[0].Label, OriginalTarget, false, ParseModeNormal); err != nil {
-		panic(err)
+	state.NeedBuild = vpBound("calls") < 2 || vpNondetBool("need-build")
+	wanted := make([]bool, n) // roots of requests that ask for a build
+	calls := 1
+	if vpBound("calls") > 1 && vpNondetBool("second-request") {
+		calls = 2
+	}
+	for c := 0; c < calls; c++ {
+		k, force := 0, false
+		if vpBound("calls") > 1 {
+			force = vpNondetBool("force")
+		}
+		if c > 0 {
+			k = vpChoice("requested", n)
+		}
+		if state.NeedBuild || force {
+			wanted[k] = true
+		}
+		if err := state.queueTarget(ts[k].Label, OriginalTarget, force, ParseModeNormal); err != nil {
+			panic(err)
+		}
 	}
 	state.taskDone(true)
 
@@ -130,7 +152,12 @@ func vpH_C04_build() {
 	// ---- after the queues closed
 	reach := vpClosure(adj)
 	for i, t := range ts {
-		needed := i == 0 || reach[0][i]
+		needed := wanted[i]
+		for r := range ts {
+			if wanted[r] && reach[r][i] {
+				needed = true
+			}
+		}
 		depFailed := false
 		for j := range ts {
 			if adj[i][j] && ts[j].State() >= DependencyFailed {
